@@ -3,6 +3,7 @@
 //! Run/C17.v and prints the same observations.
 //!
 //!   c17 tccache   case   = ( cap ( (content id) ... ) ( id ... ) ( (path content mtime) ... ) ( op ... ) )
+//!   c17 client    case   = ( cap ( (content id) ... ) ( op ... ) )      the client side: ClientToolchains
 //!   c17 hash      line   = ( content ... )   ->   ( id ... )     (real ids: sccache::util::Digest = BLAKE3)
 //!
 //! An interrupted upload followed by a server restart (`crash_upload`) is
@@ -10,7 +11,7 @@
 //! writer callback, after the bytes were written) the cache directory is copied
 //! aside with its mtimes; the copy is what the restarted server finds.
 use filetime::{set_file_mtime, FileTime};
-use sccache::dist::{TcCache, Toolchain};
+use sccache::dist::{ClientToolchains, TcCache, Toolchain};
 use sccache::lru_disk_cache::Error as LruError;
 use sccache::util::Digest;
 use std::ffi::OsStr;
@@ -81,6 +82,38 @@ fn anyhow_kind(e: &anyhow::Error) -> &'static str {
     }
 }
 
+/// Sorted listing of the entry files below `root` as (path content logical-mtime real-digest); files the
+/// code under test just touched (mtime outside the logical range) are reported and moved onto the logical clock.
+fn list_dir(root: &Path, clock: &mut i64) -> (Vec<Sx>, Vec<Sx>, u64) {
+    let mut listing = vec![];
+    walk(root, root, &mut listing);
+    listing.sort();
+    let mut touched = vec![];
+    let mut files = vec![];
+    let mut ntmp = 0u64;
+    for (rel, path) in listing {
+        let name = path.file_name().unwrap().as_bytes();
+        if name.starts_with(b".sccachetmp") {
+            ntmp += 1;
+            continue;
+        }
+        let m = std::fs::metadata(&path).unwrap();
+        let mt = FileTime::from_last_modification_time(&m).unix_seconds();
+        let logical = if (BASE..BASE + RANGE).contains(&mt) {
+            mt - BASE
+        } else {
+            *clock += 1;
+            set_file_mtime(&path, FileTime::from_unix_time(BASE + *clock, 0)).unwrap();
+            touched.push(Sx::B(rel.clone()));
+            *clock
+        };
+        let content = std::fs::read(&path).unwrap();
+        let id = real_id(&content);
+        files.push(Sx::L(vec![Sx::B(rel), Sx::B(content), Sx::N(logical as u128), Sx::B(id)]));
+    }
+    (touched, files, ntmp)
+}
+
 struct World {
     root: PathBuf,
     ext: PathBuf,
@@ -94,32 +127,7 @@ struct World {
 
 impl World {
     fn observe(&mut self, res: &str, ret: Vec<Sx>) -> Sx {
-        let mut listing = vec![];
-        walk(&self.root.clone(), &self.root.clone(), &mut listing);
-        listing.sort();
-        let mut touched = vec![];
-        let mut files = vec![];
-        let mut ntmp = 0u64;
-        for (rel, path) in listing {
-            let name = path.file_name().unwrap().as_bytes();
-            if name.starts_with(b".sccachetmp") {
-                ntmp += 1;
-                continue;
-            }
-            let m = std::fs::metadata(&path).unwrap();
-            let mt = FileTime::from_last_modification_time(&m).unix_seconds();
-            let logical = if (BASE..BASE + RANGE).contains(&mt) {
-                mt - BASE
-            } else {
-                self.clock += 1;
-                set_file_mtime(&path, FileTime::from_unix_time(BASE + self.clock, 0)).unwrap();
-                touched.push(Sx::B(rel.clone()));
-                self.clock
-            };
-            let content = std::fs::read(&path).unwrap();
-            let id = real_id(&content);
-            files.push(Sx::L(vec![Sx::B(rel), Sx::B(content), Sx::N(logical as u128), Sx::B(id)]));
-        }
+        let (touched, files, ntmp) = list_dir(&self.root, &mut self.clock);
         let mut present = vec![];
         let (size, len, index) = match &self.cache {
             Some(c) => {
@@ -309,11 +317,97 @@ fn run_case(case: &Sx) -> Sx {
     Sx::L(out)
 }
 
+/// The client side: `ClientToolchains` (weak key -> archive id map in front of a TcCache filled by insert_file).
+fn run_client(case: &Sx) -> Sx {
+    for e in case.arg(1).list() {
+        if real_id(e.arg(0).bytes()) != e.arg(1).bytes() {
+            return Sx::L(vec![Sx::sym("bad_table")]);
+        }
+    }
+    let td = tempfile::Builder::new().prefix("vh-c17c-").tempdir_in("/dev/shm").unwrap();
+    let dir = td.path().join("client");
+    let root = dir.join("tc");
+    let mut clock = 1000i64;
+    let mut ct = Some(ClientToolchains::new(&dir, case.arg(0).u64(), &[]).unwrap());
+    let mut out = vec![];
+    let mut ops: Vec<Sx> = vec![Sx::L(vec![Sx::sym("open")])];
+    ops.extend(case.arg(2).list().iter().cloned());
+    for op in &ops {
+        let r = catch(|| {
+            let c = ct.as_ref().unwrap();
+            match op.tag().as_str() {
+                "open" => ("ok".to_string(), vec![]),
+                "put" => {
+                    let weak = op.arg(1).str();
+                    match c.verif_put_toolchain(Path::new("/usr/bin/cc"), &weak, op.arg(2).bytes().to_vec(), op.arg(3).as_bool()) {
+                        Ok(tc) => ("ok".to_string(), vec![Sx::B(tc.archive_id.into_bytes())]),
+                        Err(e) => (anyhow_kind(&e).to_string(), vec![]),
+                    }
+                }
+                "get" => match tc_of(op.arg(1).bytes()) {
+                    None => ("not_in_cache".to_string(), vec![]),
+                    Some(tc) => match c.get_toolchain(&tc) {
+                        Ok(Some(mut f)) => {
+                            let mut content = vec![];
+                            f.read_to_end(&mut content).unwrap();
+                            let id = real_id(&content);
+                            ("ok".to_string(), vec![Sx::B(content), Sx::B(id)])
+                        }
+                        Ok(None) => ("not_in_cache".to_string(), vec![]),
+                        Err(e) => (anyhow_kind(&e).to_string(), vec![]),
+                    },
+                },
+                _ => ("bad_op".to_string(), vec![]),
+            }
+        });
+        let r = if op.tag() == "reopen" {
+            ct = None;
+            match catch(|| ClientToolchains::new(&dir, op.arg(1).u64(), &[])) {
+                Ok(Ok(c)) => {
+                    ct = Some(c);
+                    Ok(("ok".to_string(), vec![]))
+                }
+                Ok(Err(_)) => Ok(("io_err".to_string(), vec![])),
+                Err(e) => Err(e),
+            }
+        } else {
+            r
+        };
+        match r {
+            Ok((res, ret)) => {
+                let (touched, files, ntmp) = list_dir(&root, &mut clock);
+                let mut leftovers = vec![];
+                walk(&dir.join("toolchain_tmp"), &dir.join("toolchain_tmp"), &mut leftovers);
+                out.push(Sx::L(vec![
+                    Sx::sym(&res),
+                    Sx::L(ret),
+                    Sx::L(touched),
+                    Sx::L(files),
+                    Sx::n(ntmp + leftovers.len() as u64),
+                ]));
+                if ct.is_none() {
+                    break;
+                }
+            }
+            Err(_) => {
+                out.push(Sx::L(vec![Sx::sym("panic")]));
+                break;
+            }
+        }
+    }
+    while out.len() < ops.len() {
+        out.push(Sx::L(vec![Sx::sym("panic")]));
+    }
+    Sx::L(out)
+}
+
 fn main() {
     vh::quiet_panics();
     let leg = std::env::args().nth(1).unwrap_or_default();
     if leg == "hash" {
         vh::run_lines(|x| Sx::L(x.list().iter().map(|c| Sx::B(real_id(c.bytes()))).collect()));
+    } else if leg == "client" {
+        vh::run_lines(run_client);
     } else {
         vh::run_lines(run_case);
     }
